@@ -34,6 +34,13 @@ Proof.
   simpl. f_equal. destruct t as [|c t']; [reflexivity|]. exact IH.
 Qed.
 
+Lemma odds_match : forall l : list Z,
+  match l with [] => [] | _ :: t' => evens t' end = odds l.
+Proof. intros [|c t]; reflexivity. Qed.
+
+Lemma odds_cons2 : forall (a b : Z) t, odds (a :: b :: t) = b :: odds t.
+Proof. intros a b [|c t]; reflexivity. Qed.
+
 Lemma existsb_rel : forall A B (R : A -> B -> Prop) (f : A -> bool) (g : B -> bool) la lb,
   Forall2 R la lb -> (forall a b, R a b -> f a = g b) -> existsb f la = existsb g lb.
 Proof.
@@ -106,28 +113,8 @@ Proof.
       by (rewrite (evens_fst _ He2); apply map_fst_rel, Hp).
     assert (Hys : Forall2 FintS (map snd (fpairs flat'')) (odds zflat''))
       by (rewrite odds_snd; apply map_snd_rel, Hp).
-    change (ar_lines zx zy ((za :: zb :: zflat'') :: zlines) acc) with
-      (match evens (za :: zb :: zflat''), odds (za :: zb :: zflat'') with
-       | [], _ => ar_lines zx zy zlines acc
-       | _ :: _, [] => RaisesEmptyLine
-       | hx :: tx, hy :: ty =>
-           let xs := hx :: tx in let ys := hy :: ty in
-           let '(b0, b1, b2, b3) := (lmin hx tx, lmin hy ty, lmax hx tx, lmax hy ty) in
-           if (zx <? b0)%Z || (zy <? b1)%Z || (b2 <? zx)%Z || (b3 <? zy)%Z then ar_lines zx zy zlines acc
-           else if any_vertex zx zy (za :: zb :: zflat'') then ar_lines zx zy zlines true
-           else ar_lines zx zy zlines (acc || any_segment zx zy xs ys)
-       end).
-    change (odds (za :: zb :: zflat'')) with (zb :: odds zflat'').
-    change (evens (za :: zb :: zflat'')) with (za :: evens zflat'').
-    cbv iota zeta.
-    change (far_lines x y ((a :: b :: flat'') :: lines) acc) with
-      (let xs := map fst (fpairs flat'') in let ys := map snd (fpairs flat'') in
-       let '(b0, b1, b2, b3) := (flmin a xs, flmin b ys, flmax a xs, flmax b ys) in
-       if (x <? b0)%float || (y <? b1)%float || (b2 <? x)%float || (b3 <? y)%float
-       then far_lines x y lines acc
-       else if fany_vertex x y (a :: b :: flat'') then far_lines x y lines true
-       else far_lines x y lines (acc || fany_segment x y ((a, b) :: fpairs flat''))).
-    cbv zeta.
+    cbn [ar_lines far_lines fpairs evens odds tl].
+    rewrite !odds_match.
     rewrite (Fint_ltb _ _ _ _ (proj1 Hx) (proj1 (flmin_rel _ _ Hxs _ _ Ha))).
     rewrite (Fint_ltb _ _ _ _ (proj1 Hy) (proj1 (flmin_rel _ _ Hys _ _ Hb))).
     rewrite (Fint_ltb _ _ _ _ (proj1 (flmax_rel _ _ Hxs _ _ Ha)) (proj1 Hx)).
@@ -137,8 +124,8 @@ Proof.
     assert (Hseg : fany_segment x y ((a, b) :: fpairs flat'') =
                    any_segment zx zy (za :: evens zflat'') (zb :: odds zflat'')).
     { unfold any_segment.
+      rewrite <- (odds_cons2 za zb zflat'').
       change (za :: evens zflat'') with (evens (za :: zb :: zflat'')).
-      change (zb :: odds zflat'') with (odds (za :: zb :: zflat'')).
       rewrite combine_evens_odds.
       apply (fany_segment_exact x y zx zy ((a, b) :: fpairs flat'') (zpairs (za :: zb :: zflat'')) Hx Hy).
       simpl. constructor; [split; assumption | exact Hp]. }
